@@ -307,7 +307,8 @@ REGISTRY = {
                   ("PsProps.C01", "Ps.Props.C01_segment_source"), ("PsProps.C01", "Ps.Props.C01_feed_complete"),
                   ("PsProps.C01", "Ps.Props.C01_loop_segments_correct"), ("PsProps.C01", "Ps.Props.C01_tiny_feed"),
                   ("PsProps.C01", "Ps.Props.C01_feed_source"), ("PsProps.C01", "Ps.Props.C01_tiny_sieve"),
-                  ("PsProps.C01", "Ps.Props.C01_inner_feed_primes")],
+                  ("PsProps.C01", "Ps.Props.C01_inner_feed_primes"), ("PsProps.C01", "Ps.Props.C01_crossoff_one_segment"),
+                  ("PsProps.C01", "Ps.Props.C01_crossoff_across_segments")],
         tie=combine(("iter", iter_tie), ("segment", segment_tie), ("wheel", streams.WHEEL.tie), ("cross", streams.CROSS.tie),
                     ("presieve", streams.PRESIEVE.tie)),
         witness=combine_witness(iter_witness, streams.WHEEL.witness, streams.CROSS.witness, streams.PRESIEVE.witness, segment_witness), assumptions=ITER_ASSUME,
@@ -315,9 +316,10 @@ REGISTRY = {
                       "sieve chain, the sieve principle, their composition (a number of a segment is prime iff pre-sieved bit set and "
                       "not crossed off by a stored sieving prime's walk), the tiling of [start, stop] by segments and the feed loops (every "
                       "source value <= isqrt(segmentHigh) is added before the segment is sieved; C01_loop_segments_correct composes all "
-                      "of them over the whole segment loop) are proved; what remains is (a) scheduling: that EratSmall (L1 "
-                      "sub-segments) / EratMedium (bucket lists) / EratBig (segment rotation, MemoryPool) perform exactly these walks "
-                      "in every segment, and (b) that SievingPrimes::next() delivers the primes of (163, isqrt(stop)] in order - a "
+                      "of them over the whole segment loop) are proved, and so is the per-prime loop shape `while (idx < S) {clear; step} idx -= S` "
+                      "carried over any list of segments (C01_crossoff_one_segment, C01_crossoff_across_segments); what remains is (a) "
+                      "scheduling: that EratSmall (L1 sub-segments, unrolled loops) / EratMedium (bucket lists per wheel index) / EratBig "
+                      "(segment rotation, MemoryPool) run exactly this loop for every stored prime in every segment, and (b) that SievingPrimes::next() delivers the primes of (163, isqrt(stop)] in order - a "
                       "hypothesis of the theorem (it is the same Erat code one level down; its own feed from tinySieve IS proved: "
                       "C01_tiny_sieve, C01_inner_feed_primes) - both tied by the "
                       "segment and cross streams only"],
